@@ -371,8 +371,10 @@ def apply_callee_contract(interp, cands, mod, cname, fn, args, kwargs, ftxt):
                 finally:
                     interp.pure -= 1
                 if interp.ctx.branch(b2z(g)):
+                    if et == '*':
+                        et = c.may_raise[0]
                     raise PyRaise(et, ExcInst(et))
-            for et in c.may_raise:
+            for et in ([] if '*' in c.raises_iff else c.may_raise):
                 if ctx.branch(ctx.fresh('raises_%s' % et, BoolS)):
                     raise PyRaise(et, ExcInst(et))
             pre = snapshot(cenv, {})
@@ -954,13 +956,18 @@ def post_obligations(it, c, penv, old, outcome):
         if et in c.raises_iff:
             it.prove_clauses([c.raises_iff[et]], _old_view(it, cenv, old), 'exc',
                              '%s: %s only if' % (c.name, et))
+        elif '*' in c.raises_iff and et in c.may_raise:
+            it.prove_clauses([c.raises_iff['*']], _old_view(it, cenv, old), 'exc',
+                             '%s: raises (%s) only if' % (c.name, et))
         elif et in c.may_raise:
             ctx.oblige('exc', '%s: %s allowed' % (c.name, et), True)
         else:
             ctx.oblige('exc', '%s: unexpected %s' % (c.name, et), False)
         cenv['raised'] = et
         it.prove_clauses(c.exc_ensures, cenv, 'exc-post', c.name)
-        if c.exc_ensures or getattr(c, 'exc_frame', False):
+        if c.exc_modifies is not None:
+            frame_obligations(it, penv, old, c.exc_modifies, c.name + ' (exceptional exit)')
+        elif c.exc_ensures:
             frame_obligations(it, penv, old, c.modifies, c.name + ' (exceptional exit)')
 
 
